@@ -95,7 +95,7 @@ def run(v, tier, seed):
     v.cov.update({"evaluations": len(lines), "distinct_nontrivial": len(nontrivial), "disagreements": diffs, "accepted_pairs": accepted, "keys_checked": checked_keys,
                   "rule": f"pattern_matches(granted, requested) of the real code vs the model for every pair of patterns over {{a,b,?,#}} up to depth {depth} ({len(pats)}^2 pairs, exhaustive) + sampled pairs with empty/unicode segments to depth 5; for every accepted pair with a well-formed grant a brute-force containment check over all keys over {{a,b,c}} up to depth 5 under the three matching relations; authorize() for random grant sets x privilege x request; non-trivial = accepted pair with a pattern of more than one segment",
                   "samples": samples, "exhaustive": True, **tstats,
-                  "request_table_rule": "a real in-process server with authorization required, one session per grant set (only read / only write / only delete on a/#, a parent-only read grant, a children-only read grant, nothing), every request kind sent once on keys and patterns under a/: each answer must be Unauthorized exactly when the privilege the documentation assigns to the kind (ls: read on <parent>/?) is not granted, and all messages are compared with the session model",
+                  "request_table_rule": "a real in-process server with authorization required, one session per grant set (only read / only write / only delete on a/#, a parent-only read grant, a children-only read grant, nothing), every request kind sent once on keys and patterns under a/: each answer must be Unauthorized exactly when the privilege the documentation assigns to the kind (ls: read on <parent>/?) is not granted, and all messages are compared with the session model; four sessions presenting an expired token, a token signed with another key, an unsigned token (alg none) and garbage, and sessions sending a request before any token: each is ended without being served",
                   "not_covered_here": "token validation (jsonwebtoken: signature, expiry) is the library's; random request sequences with authorization are part of C13"})
 
 KIND_PRIV = {"get": "read", "cGet": "read", "subscribe": "read", "pGet": "read", "pSubscribe": "read", "ls": "read", "pLs": "read", "subscribeLs": "read",
@@ -117,13 +117,35 @@ def request_table(v, work):
         for t, (kind, body) in enumerate(reqs, start=1):
             ops.append(("send", 0, {kind: {"transactionId": t, **body}}))
         cases.append((f"table-{nm}", ops))
+    # tokens the server must refuse: expired, signed with another key, unsigned ("alg":"none"), garbage -- the session ends, and
+    # a request sent before any token ends it too (no request is served before a valid token)
+    full = {"sub": "u", "name": "n", "exp": 4102444800, "worterbuchPrivileges": {"read": ["#"], "write": ["#"], "delete": ["#"]}}
+    refused = []
+    for mode in ("expired", "forged", "noalg", None):
+        ops = [("open", 0), ("open", 1), ("badauth", 0, mode, full) if mode else ("badauth", 0), ("send", 0, {"get": {"transactionId": 1, "key": "a"}}),
+               ("send", 1, {"set": {"transactionId": 1, "key": "a", "value": 1}})]
+        refused.append((f"token-{mode or 'garbage'}", ops))
     cpath = os.path.join(work, "table.txt")
-    write_cases(cpath, [(nm, ["cfg auth=1"] + [R(o) for o in ops]) for nm, ops in cases])
+    write_cases(cpath, [(nm, ["cfg auth=1"] + [R(o) for o in ops]) for nm, ops in cases + refused])
     impl, model = run_engine("session", "session_driver", cpath, work, tag="-table")
     A, B = read_obs(impl), read_obs(model)
     A = {nm: align_closed(A[nm], B.get(nm, [])) for nm in A}
     A = {nm: [canon_session_line(l) if l != 'ok' else l for l in A[nm]] for nm in A}
     B = {nm: [canon_session_line(l) if l != 'ok' else l for l in B[nm]] for nm in B}
+    for nm, ops in refused:
+        flat = " ".join(A[nm][1:])
+        if "0:closed" not in flat or "state" in "".join(str(decode_msg(t)) for l in A[nm][1:] for s_, t in parse_out(l) if s_ == 0 and t.startswith("j") and "state" in decode_msg(t)):
+            v.violation({"what": f"{nm}: a session that presented a refused token was not ended, or was served", "case": nm, "engine": "session", "driver": "session_driver",
+                         "ops": ["cfg auth=1"] + [R(x) for x in ops], "observed": A[nm]})
+            return {"request_table_requests": 0}
+        if "1:closed" not in flat or any(decode_msg(t).get("ack") for l in A[nm][1:] for s_, t in parse_out(l) if s_ == 1 and t.startswith("j")):
+            v.violation({"what": f"{nm}: a request sent before any token was served, or its session was not ended", "case": nm, "engine": "session", "driver": "session_driver",
+                         "ops": ["cfg auth=1"] + [R(x) for x in ops], "observed": A[nm]})
+            return {"request_table_requests": 0}
+        for i, (x, y) in enumerate(zip(A[nm], B.get(nm, []))):
+            if x != y and not v.violations:
+                v.violation({"what": "refused tokens: session model and server disagree", "case": nm, "engine": "session", "driver": "session_driver",
+                             "ops": ["cfg auth=1"] + [R(o) for o in ops[:i]], "impl": x, "model": y, "broken_obligation": "correspondence session/C15 (Model/Session.v authorize_session)"}, no_input=True)
     denied = served = 0
     for nm, ops in cases:
         gr = grantsets[nm[6:]]
